@@ -1,4 +1,7 @@
 import Model.OMapRep
+import Proofs.OMap
+import Model.GoPrelude
+import Proofs.Inv
 /-!
 # Props.OMapRefine — the key-slice-plus-Go-map structure of `entry/entry_map.go` refines the list of values
 
@@ -463,6 +466,88 @@ theorem merge_eq (a b : Rep) (ha : WF a) (hb : WF b) (hKa : Keyed a) (hKb : Keye
     exact hag x (conv x hx) y (conv y hy)
   obtain ⟨w2, k2, e2⟩ := abs_foldl_set (abs b) _ w1 k1 hab
   exact ⟨w2, k2, by rw [e2, e1]⟩
+
+/-- `Set(k, e)` as the translators write it (`omSetK`, `Model/GoPrelude.lean`) when the key is the hash -/
+theorem abs_set_K (o : Rep) (h : WF o) (hK : Keyed o) (e : Entry) (hag : ∀ v, get o e.hash = some v → v = e) :
+    abs (set o e.hash e) = Model.Go.omSetK (abs o) e.hash e := abs_set o h hK e hag
+
+/-! ### Every ordered map of the list model is the abstraction of a well-formed representation -/
+
+/-- the representation of a list of values with distinct hashes -/
+def ofList (L : List Entry) : Rep := { keys := hashes L, vals := L.map (fun e => (e.hash, e)) }
+
+theorem lookup_ofList (L : List Entry) (h : Hash) : lookup (ofList L).vals h = get? L h := by
+  unfold lookup ofList get?
+  induction L with
+  | nil => rfl
+  | cons e t ih =>
+    simp only [List.map_cons, List.find?_cons]
+    cases hb : (e.hash == h) with
+    | true => rfl
+    | false => exact ih
+
+theorem wf_ofList (L : List Entry) (hnd : (hashes L).Nodup) : WF (ofList L) := by
+  have hd : dom (ofList L).vals = hashes L := by
+    unfold dom ofList hashes
+    simp [List.map_map, Function.comp_def]
+  exact ⟨hnd, hd ▸ hnd, fun k => by rw [hd]; rfl⟩
+
+theorem keyed_ofList (L : List Entry) : Keyed (ofList L) := by
+  intro k v hl
+  rw [lookup_ofList] at hl
+  unfold get? at hl
+  have := List.find?_some hl
+  simpa using this
+
+theorem abs_ofList (L : List Entry) (hnd : (hashes L).Nodup) : abs (ofList L) = L := by
+  unfold abs
+  have : (ofList L).keys = L.map (·.hash) := rfl
+  rw [this, List.filterMap_map]
+  have h2 : ∀ e ∈ L, ((lookup (ofList L).vals) ∘ (·.hash)) e = some e := by
+    intro e he
+    simp only [Function.comp, lookup_ofList]
+    exact get?_eq_of_mem hnd he
+  rw [filterMap_congr' h2]
+  exact List.filterMap_some
+
+/-- inside a universe of entries with distinct hashes (content addressing: `Reachable` systems have one) any
+    entries agree — the hypothesis of `abs_set`, `fromEntries_eq` and `merge_eq` holds for every log state the
+    property theorems talk about -/
+theorem agree_of_universe {U S : List Entry} (hU : (hashes U).Nodup) (hS : ∀ e ∈ S, e ∈ U) : Agree S := by
+  intro a ha b hb hab
+  have h1 := get?_eq_of_mem hU (hS a ha)
+  have h2 := get?_eq_of_mem hU (hS b hb)
+  rw [hab, h2] at h1
+  exact (Option.some.inj h1).symm
+
+/-- **for every log state of the property theorems** (`Inv U l`, `U` the content-addressed universe): its entry map
+    and its head map are abstractions of well-formed hash-keyed representations, and `Set` of any entry of the
+    universe, `Merge` of the two, … on those representations are the list operations the model performs -/
+theorem inv_maps_are_reps {U : List Entry} {l : Log} (hU : (hashes U).Nodup) (I : Inv U l) :
+    (WF (ofList l.entries) ∧ Keyed (ofList l.entries) ∧ abs (ofList l.entries) = l.entries) ∧
+    (WF (ofList l.heads) ∧ Keyed (ofList l.heads) ∧ abs (ofList l.heads) = l.heads) ∧
+    (∀ e ∈ U, abs (set (ofList l.entries) e.hash e) = omSet l.entries e) ∧
+    abs (merge (ofList l.heads) (ofList l.entries)) = omMerge l.heads l.entries := by
+  have hE := wf_ofList l.entries I.nodup
+  have hH := wf_ofList l.heads I.headsNodup
+  have aE := abs_ofList l.entries I.nodup
+  have aH := abs_ofList l.heads I.headsNodup
+  refine ⟨⟨hE, keyed_ofList _, aE⟩, ⟨hH, keyed_ofList _, aH⟩, ?_, ?_⟩
+  · intro e he
+    rw [abs_set _ hE (keyed_ofList _) e, aE]
+    intro v hv
+    have hvm : v ∈ l.entries := by
+      have := (mem_abs _ hE v).mpr ⟨e.hash, hv⟩
+      rwa [aE] at this
+    exact eq_of_hash_eq hU (I.inU v hvm) he (keyed_ofList _ _ _ hv)
+  · have hag : Agree (abs (ofList l.heads) ++ abs (ofList l.entries)) := by
+      rw [aE, aH]
+      apply agree_of_universe hU
+      intro e he
+      rcases List.mem_append.mp he with h | h
+      · exact I.inU e (I.headsIn e h)
+      · exact I.inU e h
+    rw [(merge_eq _ _ hH hE (keyed_ofList _) (keyed_ofList _) hag).2.2, aE, aH]
 
 /-- non-vacuity: two maps sharing one entry, merged -/
 example :
